@@ -107,6 +107,33 @@ def constraintOk (p : PInput) : PConstraint → Bool
 
 def inputOk (p : PInput) : Bool := layoutOk p.layout && p.constraints.all (constraintOk p)
 
+/-- the formula a `Derivation` constraint contributes (none: not a derivation, or its `apply` raised) -/
+def derivationFormula (p : PInput) : PConstraint → Option Formula
+  | .derivation d deps fi sd =>
+    if d < gridVariables p.layout then some (derivationSimple p d deps) else derivationComplex p d deps fi sd
+  | _ => none
+
+/-- the level a constraint names exists; the trials it looks at exist and the factor has a level there -/
+def levelOk (p : PInput) : PConstraint → Bool
+  | .exclude i l => decide (l < (factorAt p i).nlevels)
+  | .pin idx i l within sn =>
+    decide (l < (factorAt p i).nlevels) &&
+    (trialNumbers p idx within sn).all (fun t =>
+      decide (t < trials p) && appliesTrial (factorAt p i) (t + 1))
+  | .atMost _ i l within | .atLeast _ i l within | .exactlyInARow _ i l within | .exactlyK _ i l within =>
+    decide (l < (factorAt p i).nlevels) && (ranges p within).all (fun r => decide (r.2 ≤ trials p))
+  | .sequential i _ => !(factorAt p i).complex
+  | _ => true
+
+/-- what reading the compiled formula at the level of sequences needs beyond `inputOk`: derivations mention design
+    variables only, named levels exist, and `Consistency` is among the constraints -/
+def seqOk (p : PInput) : Bool :=
+  p.constraints.all (fun c => match derivationFormula p c with
+    | some g => (flits g).all (fun l => decide (l ≠ 0) && decide (l.natAbs ≤ variablesPerSample p.layout))
+    | none => true) &&
+  p.constraints.all (levelOk p) &&
+  p.constraints.any (fun c => match c with | .consistency => true | _ => false)
+
 /-- the decidable hypotheses of the C02/C03 theorems for the backend of an input:
     (backend well formed, state variables defined, input side conditions) -/
 def checkWf (p : PInput) : Bool × Bool × Bool :=
